@@ -5,6 +5,7 @@ import OptRs.Driver.Perceive
 import OptRs.Driver.FF
 import OptRs.Driver.SD
 import OptRs.Driver.Xyz
+import OptRs.Driver.Uff
 open OptRs.Driver
 
 partial def loop (h : IO.FS.Stream) (out : IO.FS.Stream) (f : String → String) : IO Unit := do
@@ -28,5 +29,6 @@ def main (args : List String) : IO UInt32 := do
   | ["xyz-read"] => loop stdin stdout xyzReadLine; return 0
   | ["xyz-write"] => loop stdin stdout xyzWriteLine; return 0
   | ["history"] => loop stdin stdout historyLine; return 0
+  | ["build"] => loop stdin stdout buildLine; return 0
   | ["atoms-oracle"] => loop stdin stdout AtomsOracle.check; return 0
   | _ => IO.eprintln "usage: optrs-model <stream>"; return 2
